@@ -134,6 +134,7 @@ struct Options {
     std::vector<Task> rest;
     std::vector<std::string> samples;
     uint32_t execs = 0;
+    uint64_t digest = 0;
     outcomes.clear();
     for (;;) {
       if (lseek(2, 0, SEEK_CUR) > 0 && ftruncate(2, 0) == 0) lseek(2, 0, SEEK_SET);
@@ -144,6 +145,7 @@ struct Options {
       if (g_rec->prune_pos >= 0) g_rec->t_pruned.fetch_add(1, std::memory_order_relaxed);
       if (h.sequential) g_ctl->states.fetch_add(g_rec->npoints.load() - (uint32_t)prefix.size() + 1, std::memory_order_relaxed);
       std::string& oc = current_outcome();
+      { uint64_t hsh = 1469598103934665603ull; for (unsigned char ch : oc) { hsh ^= ch; hsh *= 1099511628211ull; } digest += hsh * 0x9e3779b97f4a7c15ull + 1; }
       bool fresh = !outcomes.count(oc);
       if (outcomes.size() < 20000 || !fresh) ++outcomes[oc]; else ++outcomes["<more>"];
       if (fresh && outcomes.size() <= 64) {
@@ -192,6 +194,7 @@ struct Options {
     for (auto& kv : outcomes) { out.u32(kv.second); out.str(kv.first); }
     out.u32((uint32_t)samples.size());
     for (auto& s : samples) out.str(s);
+    out.u32((uint32_t)(digest & 0xffffffffu)); out.u32((uint32_t)(digest >> 32));
     if (!send_msg(fd, out)) _exit(0);
   }
 }
@@ -296,6 +299,7 @@ struct Explorer {
   std::vector<BoundStats> bounds;
   uint64_t total_fail_execs = 0;
   bool capped = false;
+  uint64_t outcome_digest = 0;   // commutative hash over the outcome strings of all executions
   size_t cache_bytes = 0;
   int idle_deaths = 0;
 
@@ -423,6 +427,7 @@ struct Explorer {
             for (uint32_t j = 0; j < no; ++j) { uint32_t c = in.g32(); std::string o = in.gstr(); if (c) merge_outcome(o, c); }
             uint32_t ns = in.g32();
             for (uint32_t j = 0; j < ns; ++j) { std::string sm = in.gstr(); if (samples.size() < 6) samples.push_back("p<=" + std::to_string(bound) + ": " + sm); }
+            { uint64_t lo = in.g32(), hi = in.g32(); outcome_digest += (hi << 32) | lo; }
             bs.execs += s.rec->t_execs.load(); bs.steps += s.rec->t_steps.load(); bs.pruned += s.rec->t_pruned.load();
             s.rec->t_execs = 0; s.rec->t_steps = 0; s.rec->t_pruned = 0;
             s.busy = false;
@@ -509,7 +514,7 @@ struct Explorer {
     std::fprintf(f, "\n ],\n \"outcomes\": {");
     size_t k = 0;
     for (auto& kv : outcomes) { if (k >= 400) break; std::fprintf(f, "%s\n  \"%s\": %lu", k ? "," : "", json_escape(kv.first).c_str(), (unsigned long)kv.second); ++k; }
-    std::fprintf(f, "\n },\n \"distinct_outcomes\": %zu,\n \"samples\": [", outcomes.size());
+    std::fprintf(f, "\n },\n \"distinct_outcomes\": %zu,\n \"outcome_digest\": \"%016lx\",\n \"samples\": [", outcomes.size(), (unsigned long)outcome_digest);
     for (size_t i = 0; i < samples.size(); ++i) std::fprintf(f, "%s\n  \"%s\"", i ? "," : "", json_escape(samples[i]).c_str());
     std::fprintf(f, "\n ],\n \"failures\": [");
     k = 0;
